@@ -49,7 +49,8 @@ var c08PerByte = map[string]int{"cbe": 4 << 10, "cte": 24 << 10}
 
 // families listed as open known findings (excluded by construction, counted)
 var c08KnownFamilies = map[string]string{"cte-open-braces": "S68-cte-map-as-key-nesting-superlinear",
-	"cte-long-verbatim-sentinel": "S88-cte-verbatim-sequences-superlinear", "cte-many-verbatim": "S88-cte-verbatim-sequences-superlinear"}
+	"cte-long-verbatim-sentinel": "S88-cte-verbatim-sequences-superlinear", "cte-many-verbatim": "S88-cte-verbatim-sequences-superlinear",
+	"cte-long-key-many-records": "S95-record-key-replay-amplification", "cbe-long-key-many-records": "S95-record-key-replay-amplification"}
 
 var c08WarmOnce sync.Once
 
@@ -416,6 +417,14 @@ var c08Families = func() []c08Family {
 		}},
 		{name: "cbe-big-string-then-many-small", format: "cbe", timing: true, maxN: 1 << 17, build: func(n int, _ []byte) []byte {
 			return cbeDoc([]byte{0x9a, 0x90}, uleb(uint64(16*n)<<1), bytes.Repeat([]byte{'x'}, 16*n), repB([]byte{0x90, 0x02, 'a'}, n), []byte{0x9b})
+		}},
+		// a record type with one long key, then n records of it: every record replays the key
+		{name: "cte-long-key-many-records", format: "cte", timing: true, maxN: 1 << 13, build: func(n int, _ []byte) []byte {
+			return []byte("c0\n@r<\"" + rep("k", 16*n) + "\">\n[" + rep("@r{1} ", n) + "]")
+		}},
+		{name: "cbe-long-key-many-records", format: "cbe", timing: true, maxN: 1 << 15, build: func(n int, _ []byte) []byte {
+			key := append(append([]byte{0x90}, uleb(uint64(16*n)<<1)...), bytes.Repeat([]byte{'k'}, 16*n)...)
+			return cbeDoc([]byte{0x7f, 0xf1, 0x01, 'r'}, key, []byte{0x9b, 0x9a}, repB([]byte{0x96, 0x01, 'r', 0x01, 0x9b}, n), []byte{0x9b})
 		}},
 		{name: "cte-record-many-values", format: "cte", timing: true, maxN: 1 << 14, build: func(n int, _ []byte) []byte {
 			var b strings.Builder
